@@ -49,9 +49,11 @@ EZeroCtr == [h |-> 0, k |-> 0, calls |-> 0, total |-> 0, nh |-> 0, njudged |-> 0
 
 EMonFresh(cfg, viol, ctr) ==
   [cfg |-> cfg, se |-> EncInit, avail |-> <<>>, pend |-> <<>>, eos |-> FALSE, done |-> FALSE, desync |-> FALSE,
-   ist |-> "ascii", rd |-> InitStream(cfg.out), hadU |-> FALSE, viol |-> viol, ctr |-> ctr]
+   ist |-> "ascii", rd |-> InitStream(cfg.out), hadU |-> FALSE, mahead |-> <<>>, viol |-> viol, ctr |-> ctr]
 
 EMonInit == [EMonFresh(NoECfg, <<>>, EZeroCtr) EXCEPT !.desync = TRUE]
+
+EIsPrefix(a, b) == Len(a) <= Len(b) /\ SubSeq(b, 1, Len(a)) = a
 
 EMaxPerTag == 12
 EAddViols(m, tags) ==
@@ -137,12 +139,21 @@ EMonEncode(m0, ev) ==
       srcAtomsUnmappable == \E j \in 1..Len(avail1) : avail1[j].i < Len(S) /\ avail1[j].k \in {"u", "n"}
       total1 == m.ctr.total + ev.read
       vecSink == cfg.sink = "vec"
+      hasMan == "man" \in DOMAIN ev
+      mainAhead == m.mahead \o ev.out
       tags == ETags(<<
         <<lostOutput, "C04.lost-output">>,
         <<aheadBad, "C04.output-ahead-of-input">>,
         <<finished /\ rest # <<>>, "C04.lost">>,
         <<ev.res = "U" /\ cfg.repl, "C09.unmappable-with-replacement">>,
         <<cfg.repl /\ hadNcr # ev.had, "C09.had-unmappables">>,
+        \* the twin encoder driven by the documented manual procedure on the units this call consumed: the caller's loop over the
+        \* without-replacement method with an ample buffer, "&#" decimal ";" appended per Unmappable result
+        \* (m.mahead = the bytes by which this encoder's output is ahead of the procedure's - an ISO-2022-JP escape can be
+        \* written by a call that reports OutputFull before consuming the character): the procedure's output must continue to be
+        \* a prefix, equal at the end of the stream, and its substitutions must be in the same calls
+        <<hasMan /\ (ev.man.res # "I" \/ ev.man.had # ev.had \/ ~EIsPrefix(ev.man.out, mainAhead) \/ (finished /\ ev.man.out # mainAhead)),
+          "C09.enc-manual-differs">>,
         <<ev.res = "I" /\ ev.read # Len(ev.src), "C06.enc-inputempty-unconsumed">>,
         <<ev.pending # (cfg.out = "ISO-2022-JP" /\ ist1 # "ascii"), "C12.pending-state">>,
         <<finished /\ ist1 # "ascii", "C12.not-ascii-at-end">>,
@@ -162,6 +173,7 @@ EMonEncode(m0, ev) ==
          !.pend = SubSeq(pend1, r + 1, Len(pend1)),
          !.eos = m.eos \/ ev.last, !.done = finished, !.ist = ist1, !.rd = de.ss, !.hadU = m.hadU \/ ev.res = "U",
          !.desync = lostOutput \/ (finished /\ rest # <<>>),
+         !.mahead = IF hasMan /\ EIsPrefix(ev.man.out, mainAhead) THEN SubSeq(mainAhead, Len(ev.man.out) + 1, Len(mainAhead)) ELSE <<>>,
          !.ctr.total = total1, !.ctr.njudged = @ + 1]
 
 (***************************************************************************)
